@@ -12,7 +12,7 @@ SHARDS = {"quick": 16, "thorough": 16}
 WATCHDOG = {"quick": 1200, "thorough": 7200}
 CASES = {"quick": 60, "thorough": 500}   # detector cases per shard (grid is split separately)
 FLOORS = {
-    "quick": {"plugged_scorer[GaussianCovCost, p>=2]": 25, "update_chunks_overlapping_the_stored_tail": 274, "distinct_nontrivial": 630, "grid_points": 600, "detector_fits": 380,
+    "quick": {"returned_penalties_edited_in_place": 1000, "plugged_scorer[GaussianCovCost, p>=2]": 25, "update_chunks_overlapping_the_stored_tail": 274, "distinct_nontrivial": 630, "grid_points": 600, "detector_fits": 380,
               "tuned_fits": 100, "pelt_ladders": 190, "K6_evaluations": 4300},
     "thorough": {"distinct_nontrivial": 3000, "grid_points": 8000, "detector_fits": 3000},
 }
@@ -142,6 +142,23 @@ def grid_case(ctx, r):
         if not (_eq(cum(got["combined"]), cum(got["dense"])) or _eq(cum(got["combined"]), alt, rel=1e-10)):
             ctx.violation(sub, "combined-p1", f"combined{label} is neither the dense penalty nor the pointwise "
                           f"minimum of the dense and the sparse one for p=1", r)
+    # a caller (e.g. a user penalty callable post-processing the library's penalty) may edit the returned arrays in
+    # place: a later call with the same arguments must still return the penalty of those arguments
+    for name, f in fams.items():
+        first = family(name, f)
+        if first is None:
+            continue
+        a1, b1 = first
+        keep = np.array(b1, dtype=float, copy=True)
+        if isinstance(b1, np.ndarray) and b1.flags.writeable:
+            b1 *= 0.25
+            b1 -= 1.0
+            ctx.stat("returned_penalties_edited_in_place")
+            again = family(name, f)
+            if again is not None and not (_eq(again[0], a1) and _eq(np.asarray(again[1], dtype=float), keep)):
+                ctx.violation(sub, "result-shared-between-calls", f"{name}{label}: after the caller edited the returned "
+                              f"betas in place, the next call returns {np.asarray(again[1]).tolist()[:4]} instead of "
+                              f"{keep.tolist()[:4]}", r)
     # factory
     for name, f in fams.items():
         if mv.capa_penalty_factory(name) is not getattr(mv, f"{name}_mvcapa_penalty"):
